@@ -158,8 +158,17 @@ def build(data):
                 name = "ns%d" % len(t["ns"])
                 inl = ["f1"] if g.chance(60) else ["g1"]
                 withfile = bool(tdefs) and g.chance(60)
-                t["ns"].append({"name": name, "file": sp if withfile else None, "kind": kind, "import": None, "inline": inl})
+                imp = None
+                if t["role"] != "lib" and not any(x.get("import") for x in t["ns"]) and g.chance(50):
+                    # unqualified use: the def written inside the tag still outranks a file def of the same name
+                    imp = ["*"] if g.chance(50) else sorted(set(inl + (tdefs[:1] if withfile else [])))
+                t["ns"].append({"name": name, "file": sp if withfile else None, "kind": kind, "import": imp, "inline": inl})
                 body.append(["callns", name, inl[0], "'n%d'" % next(_cnt)])
+                if imp:
+                    body.append(["callimp", inl[0], "'j%d'" % next(_cnt)])
+                    if withfile:
+                        for d in (tdefs if imp == ["*"] else [x for x in imp if x in tdefs]):
+                            body.append(["callimp", d, "'k%d'" % next(_cnt)])
                 if withfile:
                     other = [d for d in tdefs if d not in inl]
                     if other:
@@ -168,7 +177,8 @@ def build(data):
                 args = {}
                 for a, _ in tgt["page"]:
                     if g.chance(50):
-                        args[a] = g.pick(["'inc-%s'" % a, "cv"])
+                        # falsy values are arguments like any other: presence decides, not truth
+                        args[a] = g.pick(["'inc-%s'" % a, "cv", "''", "0", "None", "'inc2-%s'" % a])
                 body.append(["include", sp, args, kind])
             elif form == "getns":
                 body.append(["getns", sp, g.pick(tdefs), "'g%d'" % next(_cnt), kind])
@@ -180,7 +190,14 @@ def build(data):
             used += 1
         if i == 0 and g.chance(25):
             body.append(["modcall", "hello", "'mod'"])
-            t["ns"].append({"name": "mod", "module": "vf.gen.c07_helper", "file": None, "import": None, "inline": []})
+            inl = []
+            if g.chance(50):
+                # a def written inside the tag outranks the module's callable of the same name
+                inl = ["both"]
+                body.append(["callns", "mod", "both", "'mb'"])
+            else:
+                body.append(["modcall", "both", "'mb'"])
+            t["ns"].append({"name": "mod", "module": "vf.gen.c07_helper", "file": None, "import": None, "inline": inl})
         body.append(["text", "]"])
         t["body"] = body
     # inheritance of the entry template from a later one that holds an inheritable namespace
@@ -288,7 +305,7 @@ def emit_template(t, shadow=False):
             attrs += ' inheritable="True"'
         if ns["inline"]:
             src.append("<%namespace" + attrs + ">" + "".join(
-                '<%%def name="%s(a=\'-\')">{inline.%s.%s: a=${a}}</%%def>' % (d, ns["name"], d) for d in ns["inline"]) + "</%namespace>")
+                '<%%def name="%s(a=\'-\')">{inline.%s.%s: a=${a} cv=${cv}}</%%def>' % (d, ns["name"], d) for d in ns["inline"]) + "</%namespace>")
         else:
             src.append("<%namespace" + attrs + "/>")
     for name in sorted(t["defs"]):
@@ -384,7 +401,7 @@ class Model:
     def call_member(self, t, ns, name, arg, ctx):
         m = self.ns_member(t, ns, name)
         if m[0] == "inline":
-            self.out.append("{inline.%s.%s: a=%s}" % (m[1], m[2], arg))
+            self.out.append("{inline.%s.%s: a=%s cv=%s}" % (m[1], m[2], arg, CTX["cv"]))
         else:
             _, uri, tgt, nm = m
             # a def reached through a namespace runs with that template's own self/local
